@@ -19,9 +19,12 @@ pub enum Family {
     SmallInts,
     /// k * 2^e with small k: exactly representable in f32, long decimal expansions
     Dyadic,
+    /// values whose bit patterns have structure: exact powers of two, integers just above
+    /// 2^53, the i64/u64 cast boundaries 2^63 and 2^64, neighbours differing in the last bit
+    Structured,
 }
 
-pub const FAMILIES: [Family; 13] = [
+pub const FAMILIES: [Family; 14] = [
     Family::Uniform,
     Family::Normal,
     Family::ExpPos,
@@ -35,6 +38,7 @@ pub const FAMILIES: [Family; 13] = [
     Family::Constant,
     Family::SmallInts,
     Family::Dyadic,
+    Family::Structured,
 ];
 
 #[derive(Clone, Debug)]
@@ -71,6 +75,17 @@ fn draw(rng: &mut Rng, fam: Family, i: usize, outlier_at: usize) -> f64 {
         Family::MixedMag => (rng.f() - 0.5) * 10f64.powf(rng.f() * 6.0 - 3.0),
         Family::Constant => 1.0,
         Family::SmallInts => rng.below(4) as f64 - 1.0,
+        Family::Structured => {
+            let sgn = if rng.chance(0.3) { -1.0 } else { 1.0 };
+            sgn * match rng.below(6) {
+                0 => 2f64.powi(rng.below(81) as i32 - 40),
+                1 => 9007199254740992.0 + 2.0 * rng.below(1 << 20) as f64,
+                2 => 9223372036854775808.0 * (1.0 + (rng.below(5) as f64 - 2.0) * f64::EPSILON),
+                3 => 18446744073709551616.0 * (1.0 + (rng.below(5) as f64 - 2.0) * f64::EPSILON),
+                4 => 4294967296.0 + rng.below(3) as f64 - 1.0,
+                _ => (1u64 << rng.below(53)) as f64 + 1.0,
+            }
+        }
         Family::Dyadic => {
             let k = 1 + rng.below(1 << 12) as i64;
             let e = rng.below(70) as i32 - 25;
@@ -306,6 +321,8 @@ pub enum WeightKind {
     ZeroRuns,
     /// every weight exactly 0 or 1 (sum w == sum w^2 without all weights being one)
     ZeroOne,
+    /// every weight the same non-dyadic constant (sum w and sum w^2 are rounded sums of equal terms)
+    ConstNonDyadic,
 }
 
 /// (x, w) pairs for C08: x as C01, w in {0} U [1e-6, 1e6], sum w > 0 overall (checked by caller).
@@ -320,8 +337,10 @@ pub fn weighted_c08(rng: &mut Rng, n: usize) -> (Vec<(f64, f64)>, DataMeta, Weig
         WeightKind::ZeroFirst,
         WeightKind::ZeroRuns,
         WeightKind::ZeroOne,
+        WeightKind::ConstNonDyadic,
     ];
     let kind = kinds[rng.usize(kinds.len())];
+    let const_w = [0.1, 0.3, 0.7, 2.7, 1e-3, 123.456][rng.usize(6)];
     let zero_rate = rng.f() * 0.6;
     let mut in_run = false;
     let ws: Vec<f64> = (0..n)
@@ -330,6 +349,7 @@ pub fn weighted_c08(rng: &mut Rng, n: usize) -> (Vec<(f64, f64)>, DataMeta, Weig
             let wide = 10f64.powf(rng.f() * 12.0 - 6.0);
             match kind {
                 WeightKind::Ones => 1.0,
+                WeightKind::ConstNonDyadic => const_w,
                 WeightKind::Unit => unit,
                 WeightKind::Wide => wide,
                 WeightKind::UnitZeros => {
